@@ -230,6 +230,7 @@ class C11(core.Check):
                    '\\renewcommand{\\subset}{\\varsubset}\n')
         eqs = []
         cnt_macrotext = [0]
+        cnt_scope = [0]
         for k in range(neq):
             while True:
                 rows = gen_eq(rnd, wid, ams=case['pack'] == '*')
@@ -260,10 +261,21 @@ class C11(core.Check):
             e.env = env
             e.wa = 'wa%dz' % k
             e.wb = 'wb%dz' % k
+            scope_end = ''
             if case.get('ml'):
                 # multi-language mode: a hard language switch before each equation
                 e.lang = rnd.choice(['en', 'de', 'ru'])
-                src += '\n\n\\selectlanguage{%s}\n\n' % {'en': 'english', 'de': 'german', 'ru': 'russian'}[e.lang]
+                bab = {'en': 'english', 'de': 'german', 'ru': 'russian'}
+                src += '\n\n\\selectlanguage{%s}\n\n' % bab[e.lang]
+                if rnd.random() < .35:
+                    # ... or the equation stands in a language scope, behind a nested switch to the very same language
+                    e.lang = rnd.choice(['en', 'de', 'ru'])
+                    src += 'wsc%dz \\begin{otherlanguage}{%s}\nwsd%dz ' % (k, bab[e.lang], k)
+                    if rnd.random() < .7:
+                        src += rnd.choice(['\\foreignlanguage{%s}{wse%dz} ', '\\begin{otherlanguage*}{%s}wse%dz\\end{otherlanguage*} ']) \
+                            % (bab[e.lang], k)
+                    scope_end = '\\end{otherlanguage}\n'
+                    cnt_scope[0] += 1
             else:
                 e.lang = lang
             src += e.wa + '\n'
@@ -275,7 +287,7 @@ class C11(core.Check):
             e.words = {w: e.start + off for w, off in words.items()}
             src += body
             e.end = len(src)
-            src += '\n' + e.wb + rnd.choice(['\n\n', '\n', ' '])
+            src += '\n' + e.wb + rnd.choice(['\n\n', '\n', ' ']) + scope_end
             eqs.append(e)
         if case.get('ml'):
             code = {'en': 'en-GB', 'de': 'de-DE', 'ru': 'ru-RU'}[lang]
@@ -292,6 +304,8 @@ class C11(core.Check):
             cnt['docs_with_macro_text_used_twice'] = 1
         if case.get('ml'):
             cnt['ml_docs'] = 1
+        if cnt_scope[0]:
+            cnt['ml_equations_in_language_scope'] = cnt_scope[0]
         detail = dict(src=src, plain=t, stderr=err, lang=lang, seqs=case['seqs'])
         if err:
             return dict(ok=False, nt=True, key='stderr', cnt=cnt, obs=None, detail=detail)
@@ -379,7 +393,7 @@ class C11(core.Check):
     def quotas(self, tier):
         return {'ml_docs': 500, 'equations_judged': 5000, 'rows_judged': 10000, 'with_kept_punctuation': 2000,
                 'with_operator_word': 1500, 'simple_equations_judged': 1000, 'docs_with_redefined_operators': 500, 'docs_with_macro_text_used_twice': 300,
-                'with_inline_maths_in_text_part': 500}
+                'with_inline_maths_in_text_part': 500, 'ml_equations_in_language_scope': 300}
 
 
 CHECK = C11
